@@ -55,6 +55,7 @@ func runC04(r *Report) {
 	c04R3(r, read, scope, L)
 	c04R4(r, read, L)
 	c04R6(r, p)
+	readFullChecked(r, "R6", map[string]bool{"protocol": true}, 3)
 	// a decoded Piece owns its payload buffer: the buffer pool's discipline (C06.R6) — a foreign or wrongly sized slice in
 	// the pool makes a later message share or overrun its payload
 	c06R6(r.sub("R7"))
